@@ -270,3 +270,31 @@ Proof. unfold src_conv_rgb_bin, conv_rgb_bin. rewrite Z.geb_leb. reflexivity. Qe
 
 Lemma src_conv_gray_bin_eq a c : src_conv_gray_bin a c = conv_gray_bin a c.
 Proof. unfold src_conv_gray_bin, conv_gray_bin. rewrite Z.geb_leb. reflexivity. Qed.
+
+(* ---- round 5 (4): the hypotheses bits_ok / fits of the template theorems hold for every RGB row of the colour table, at the
+   maximum of the row's own storage type (audit3 A8); hence `new` of the template of that storage type is rgb_new of the row ---- *)
+Definition storage_max (t : crow) : Z := 2 ^ raw_sbits (c_raw t) - 1.
+Definition rgb_row_ok (t : crow) : Prop :=
+  match c_kind t with KRgb _ _ _ _ => bits_ok t /\ fits t (storage_max t) | _ => True end.
+Lemma color_table_rows_ok : Forall rgb_row_ok color_table.
+Proof.
+  unfold color_table. repeat (apply Forall_cons || apply Forall_nil); unfold rgb_row_ok; cbn [c_kind row_BinaryColor row_Gray2 row_Gray4 row_Gray8 row_Rgb332 row_Rgb444 row_Rgb555 row_Bgr555 row_Rgb565 row_Bgr565 row_Rgb666 row_Bgr666 row_Rgb888 row_Bgr888]; try exact I;
+  unfold bits_ok, fits; repeat split; vm_compute; first [reflexivity | intro H; discriminate H].
+Qed.
+
+Lemma row_is_self t : row_is t (rbits t) (gbits t) (bbits t) (rpos t) (gpos t) (bpos t).
+Proof. repeat split; reflexivity. Qed.
+
+Lemma color_table_rgb_new t o rb gb bb r g b : In t color_table -> c_kind t = KRgb o rb gb bb ->
+  0 <= r <= 255 -> 0 <= g <= 255 -> 0 <= b <= 255 ->
+  (raw_sbits (c_raw t) = 8 -> src_rgb8_new (rbits t) (gbits t) (bbits t) (rpos t) (gpos t) (bpos t) r g b = rgb_new t r g b) /\
+  (raw_sbits (c_raw t) = 16 -> src_rgb16_new (rbits t) (gbits t) (bbits t) (rpos t) (gpos t) (bpos t) r g b = rgb_new t r g b) /\
+  (raw_sbits (c_raw t) = 32 -> src_rgb32_new (rbits t) (gbits t) (bbits t) (rpos t) (gpos t) (bpos t) r g b = rgb_new t r g b).
+Proof.
+  intros Hin Hk Hr Hg Hb. pose proof (proj1 (Forall_forall _ _) color_table_rows_ok t Hin) as Hok.
+  unfold rgb_row_ok in Hok. rewrite Hk in Hok. destruct Hok as [Hbits Hfits]. unfold storage_max in Hfits.
+  repeat split; intros E; rewrite E in Hfits.
+  - apply (src_rgb8_new_eq t); try assumption; apply row_is_self.
+  - apply (src_rgb16_new_eq t); try assumption; apply row_is_self.
+  - apply (src_rgb32_new_eq t); try assumption; apply row_is_self.
+Qed.
